@@ -235,7 +235,7 @@ func (m *MuxMon) Step(h *MuxH, i int) (vs []Viol) {
 		return
 	case "pkt":
 		// caller-built packets: not the Muxer's PIDs; C04 alignment was checked above
-		valid := c.Op.Pkt == "null" || c.Op.Pkt == "ownpid" || c.Op.Pkt == "afonly" || c.Op.Pkt == "short" || c.Op.Pkt == "shortaf" || c.Op.Pkt == "priv0pkt"
+		valid := c.Op.Pkt == "null" || c.Op.Pkt == "ownpid" || c.Op.Pkt == "afonly" || c.Op.Pkt == "short" || c.Op.Pkt == "shortaf" || c.Op.Pkt == "priv0pkt" || c.Op.Pkt == "staleaf" || c.Op.Pkt == "fitpriv" || c.Op.Pkt == "fitpcrext"
 		if valid && (c.Err != nil || len(out) != 188) {
 			add("C04", "valid-packet-rejected:"+c.Op.Pkt, "valid packet: n=%d err=%v", c.N, c.Err)
 		}
